@@ -18,7 +18,11 @@ class C08(Spec):
     rule = ("(1) translation validation: tools/xlate turns every method of ui.State and every goroutine literal of the CURRENT ui/ui.go "
             "into a Conc.cmd term (gen/UiProg.v, regenerated on every run) and Coq re-decides lock_check on it by vm_compute; the "
             "soundness theorems (check_sound, safety, progress) then give lock ownership at every state access and frame, mutual "
-            "exclusion and progress for ALL interleavings. (2) observation: stress runs of the real ui.State with one goroutine per "
+            "exclusion and progress for ALL interleavings. (1b) the fork-join fan-outs of pub, splicer and client (functions that start "
+            "goroutine literals and Wait): tools/xlate -fanout extracts, from the CURRENT source, the reads and writes each goroutine "
+            "makes to memory shared with its siblings (gen/FanOut.v; a goroutine started in a loop is instantiated for two distinct "
+            "iterations), Coq re-decides fj_check, and fj_no_race / fj_deterministic give: no data race, the same memory under EVERY "
+            "interleaving. (2) observation: stress runs of the real ui.State with one goroutine per "
             "key, a 1 ms resize poller and loaders with random latency; a TryLock probe inside the output callback (frame emitted "
             "while nobody holds the lock), an overlap detector and a progress watchdog; thorough also runs the stress under -race. "
             "(3) fan-outs: posts with several authors, recipients and attachments, collections, activities, page chains, feeds and "
@@ -29,8 +33,10 @@ class C08(Spec):
                    "direction via loadingUp/loadingDown) rather than the mutex; the translator treats their reads inside goroutine "
                    "literals as non-events and the race detector observes the protocol",
                    "Block steps (network, child processes) eventually return (C05)",
-                   "the fan-outs in pub/splicer/client (disjoint slots + WaitGroup) are not modelled: they are run under the Go race detector "
-                   "(every tier) through the real constructors, Harvest, the splicer and fetches against the simulator"]
+                   "fan-outs: the access lists are extracted syntactically; function and method calls count as reads of their receiver "
+                   "and arguments - what callees do to memory they share (the jtp cache, singleflight) is their own synchronisation, and "
+                   "is observed by running the real constructors, Harvest, the splicer and fetches against the simulator under the Go "
+                   "race detector in every tier"]
 
     def batches(self, rng, tier):
         return []
@@ -64,6 +70,31 @@ class C08(Spec):
         if q.returncode != 0 or q.stdout.count("Closed under the global context") < 4 or "Axioms:" in q.stdout:
             discipline_broken = "ui_lock_discipline (lock_check ui_prog = true) no longer checks; functions violating the discipline: %s" % (", ".join(bad) or "?")
             log("C08:", discipline_broken)
+        # ---- (1b) the fork-join fan-outs of pub / splicer / client: access lists regenerated from the CURRENT source, fj_check
+        #           re-decided by Coq, the general theorems (no data race, same memory under every interleaving) instantiated
+        fanout_broken = None
+        import glob
+        srcs = sorted(glob.glob(os.path.join(scratch.src, "pub", "*.go")) + glob.glob(os.path.join(scratch.src, "splicer", "*.go")) +
+                      glob.glob(os.path.join(scratch.src, "client", "*.go")))
+        srcs = [f for f in srcs if not f.endswith("_test.go") and not os.path.basename(f).startswith("verif_")]
+        fgen = os.path.join(COQ, "gen", "FanOut.v")
+        pf = subprocess.run([xl, "-fanout", fgen] + srcs, stdout=subprocess.PIPE, stderr=subprocess.STDOUT, text=True)
+        if pf.returncode != 0:
+            raise Broken("correspondence", "translator failed on the fan-out sources", pf.stdout[-2000:])
+        fnames = pf.stdout.split()
+        qf = subprocess.run(["timeout", "300", "coqc", "-R", "theories", "Servitor", "-R", "facts", "Servitor.Facts", "gen/FanOut.v"], cwd=COQ,
+                            stdout=subprocess.PIPE, stderr=subprocess.STDOUT, text=True)
+        mf = re.search(r"=\s*\[([^\]]*)\]", qf.stdout)
+        fverdicts = [v.strip() == "true" for v in mf.group(1).split(";")] if mf else []
+        report.extra["fanouts"] = dict(zip(fnames, fverdicts))
+        report.extra["generated_theorems_fanout"] = ["fanouts_understood", "fanouts_disjoint", "fanouts_race_free"]
+        if not fnames:
+            fanout_broken = "the translator found no fan-out in pub/splicer/client (the WaitGroup pattern is gone or changed shape)"
+        elif qf.returncode != 0 or qf.stdout.count("Closed under the global context") < 2 or "Axioms:" in qf.stdout:
+            badf = [n for n, v in zip(fnames, fverdicts) if not v]
+            fanout_broken = ("fanouts_disjoint / fanouts_understood (gen/FanOut.v) no longer check; fan-outs whose goroutines conflict: %s; %s"
+                             % (", ".join(badf) or "none (a construct was not understood)", qf.stdout[-600:].replace("\n", " ")))
+            log("C08:", fanout_broken)
         # ---- (2) observation
         tooldir = os.path.join(scratch.dir, "hookbin")
         os.makedirs(tooldir, exist_ok=True)
@@ -115,6 +146,8 @@ class C08(Spec):
         self.fanout_race_run(scratch, rng, tier, report)
         if discipline_broken:
             raise Broken("proof", discipline_broken, q.stdout[-3000:])
+        if fanout_broken:
+            raise Broken("proof", fanout_broken, qf.stdout[-3000:])
 
     def fanout_race_run(self, scratch, rng, tier, report):
         import asgen
